@@ -37,6 +37,10 @@ Fixpoint is_data (v:rvalue) : bool :=
 Definition pure_unary (n:string) (v:rvalue) : option rvalue :=
   if String.eqb n "!" then match v with RBool b => Some (RBool (negb b)) | _ => None end
   else if String.eqb n "count" then match v with RArr l => Some (RNum (Z.of_nat (length l))) | _ => None end
+  else if String.eqb n "str" then match v with RNil | RNone => None | _ => option_map RStr (rshow true v) end
+  else if String.eqb n "-" then
+    match v with RNum x => if Z.eqb x 0 then None else if is_int_in_range (- x) then Some (RNum (- x)) else None | _ => None end
+  else if String.eqb n "+" then match v with RNum _ | RArr _ => Some v | _ => None end
   else None.
 Definition pure_binary (n:string) (l r:rvalue) : option rvalue :=
   if String.eqb n "+" then
@@ -53,7 +57,24 @@ Definition pure_binary (n:string) (l r:rvalue) : option rvalue :=
   else if String.eqb n ">" then match l, r with RNum x, RNum y => Some (RBool (Z.gtb x y)) | _, _ => None end
   else if String.eqb n "<=" then match l, r with RNum x, RNum y => Some (RBool (Z.leb x y)) | _, _ => None end
   else if String.eqb n ">=" then match l, r with RNum x, RNum y => Some (RBool (Z.geb x y)) | _, _ => None end
+  else if String.eqb n "*" then
+    match l, r with
+    | RNum x, RNum y => if andb (Z.eqb (x * y) 0) (orb (Z.ltb x 0) (Z.ltb y 0)) then None
+                        else if is_int_in_range (x * y) then Some (RNum (x * y)) else None
+    | _, _ => None end
+  else if String.eqb n "==" then
+    match l, r with RNum _, RNum _ | RBool _, RBool _ | RStr _, RStr _ => Some (RBool (req false l r)) | _, _ => None end
+  else if String.eqb n "!=" then
+    match l, r with RNum _, RNum _ | RBool _, RBool _ | RStr _, RStr _ => Some (RBool (negb (req false l r))) | _, _ => None end
+  else if String.eqb n "isequalto" then
+    match l, r with
+    | RNil, _ | RNone, _ | _, RNil | _, RNone => None
+    | _, _ => match rshow true l, rshow true r with Some _, Some _ => Some (RBool (req true l r)) | _, _ => None end end
   else None.
+
+(* case analysis on a definition by cases that is known to yield a value *)
+Ltac crack H := repeat (first [ progress cbv beta iota in H
+                              | match type of H with match ?x with _ => _ end = _ => destruct x end ]; try discriminate H).
 
 (* big-step evaluation of a frame-free expression in a fixed environment: [loc] resolves local names, [glob] global ones *)
 Inductive pev (loc glob : string -> option rvalue) : expr -> rvalue -> Prop :=
